@@ -127,7 +127,12 @@ class C14(Check):
 
     def gen(self, rk, tier, idx):
         r = stream(rk, "cfg")
-        strategy = r.choice(["dimension_wise"] * 6 + ["extend_split"] * 4 + ["cell"])
+        strategy = r.choice(["dimension_wise"] * 6 + ["extend_split"] * 4 + ["cell", "standard"])
+        if strategy == "standard":
+            from engines import combi_drivers as CD
+            cfg = CD.gen_standard_cfg(r, tier)
+            cfg.update(reuse_path=r.random() < 0.5, fault_weights={}, final=0, estimator="none", next_call=[r.choice([1, 2]), r.choice([2, 3, 4])])
+            return {"config": cfg, "ops": []}
         if strategy == "cell":
             cfg = ES.gen_cell_cfg(r, tier)
             cfg["max_leaves"] = 10 ** 6
@@ -157,6 +162,13 @@ class C14(Check):
 
     def simplify(self, s):
         st = s["config"]["strategy"]
+        if st == "standard":
+            c = s["config"]
+            if len(c["calls"]) > 1:
+                n = copy.deepcopy(s); n["config"]["calls"] = c["calls"][:-1]; yield n
+            if c["dim"] > 1:
+                n = copy.deepcopy(s); n["config"].update(dim=c["dim"] - 1, a=c["a"][:-1], b=c["b"][:-1]); yield n
+            return
         gen = DS.simplify_cfg(s) if st == "dimension_wise" else ES.simplify_cfg(s)
         for c in gen:
             yield c
@@ -186,9 +198,63 @@ class C14(Check):
         except DS.StopRun:
             raise Excluded("no stop within the evaluation cap")
 
+    def execute_standard(self, cfg, rk, ctx):
+        """StandardCombi: perform_operation calls, save, crash, restore twice; the restored object answers interpolation,
+        point count and points-and-weights like the saved one, and a further perform_operation on it gives what the
+        same call gives on an instance that was never saved."""
+        import sparseSpACE.StandardCombi as SC
+        from sparseSpACE.GridOperation import Integration
+        from sparseSpACE.Grid import TrapezoidalGrid
+        from simcore.env import SimFunction
+        sig = {"strategy": "standard", "fault": "save_crash_restore", "estimator": "none"}
+        a, b = np.array(cfg["a"], dtype=float), np.array(cfg["b"], dtype=float)
+
+        def build():
+            f = SimFunction(rk, nnoise=cfg["nnoise"])
+            op = Integration(f=f, grid=TrapezoidalGrid(a=a, b=b, boundary=cfg["boundary"]), dim=cfg["dim"], print_level=100, log_level=100)
+            sc = SC.StandardCombi(a, b, operation=op, print_level=100, log_level=100)
+            for lmin, lmax in cfg["calls"]:
+                sc.perform_operation(lmin, lmax)
+                ctx.step()
+            return sc
+        P = query_points(rk, cfg["a"], cfg["b"], 5)
+        hexes = lambda arr: [float(x).hex() for x in np.asarray(arr, dtype=float).ravel()]
+
+        def answers(sc):
+            out = [["points", int(sc.get_total_num_points())]]
+            if cfg["boundary"]:
+                out.append(["interpolation"] + hexes(sc(P)))
+            pts, w = sc.get_points_and_weights()
+            out.append(["points_and_weights"] + hexes(pts) + hexes(w))
+            _, _, res = sc.perform_operation(*cfg["next_call"])
+            out.append(["next_call_result"] + hexes(res) + [int(sc.get_total_num_points())])
+            return out
+        with seams.quiet():
+            twin = answers(build())
+            sc = build()
+            path = "mem://checkpoint" if cfg.get("reuse_path") else "mem://c14-std"
+            sc.save_to_file(path)
+            ctx.fault("save")
+            live = answers(sc)
+            del sc
+            ctx.fault("crash_restore")
+            got = answers(SC.StandardCombi.restore_from_file(path))
+            again = answers(SC.StandardCombi.restore_from_file(path))
+        ctx.probe("crash_point")
+        ctx.state(("standard", cfg["dim"], json.dumps(cfg["calls"]), cfg["boundary"]))
+        for name, x in (("restored", got), ("restored a second time", again), ("never-saved twin", twin)):
+            if x != live:
+                diff = [q[0] for q, w in zip(x, live) if q != w]
+                ctx.violate("restored_equals_saved" if name != "never-saved twin" else "save_leaves_instance_untouched", sig,
+                            "StandardCombi after calls %s: %s instance answers %s differently from the saved one" % (cfg["calls"], name, diff))
+        ctx.probe("restored_equals_saved")
+        ctx.ok("restored_equals_saved")
+
     def execute(self, sched, ctx):
         cfg, rk = sched["config"], sched["rk"]
         st = cfg["strategy"]
+        if st == "standard":
+            return self.execute_standard(cfg, rk, ctx)
         final = cfg["final"]
         twin_sim = self.make(cfg, rk, ctx)
         ret = self.run_to(twin_sim, final)
